@@ -77,6 +77,17 @@ pub fn replay(j: &J) -> i32 {
     let shard = j.get("shard").and_then(|s| s.as_i64()).unwrap_or(0) as usize;
     let index = j.get("index").and_then(|s| s.as_i64()).unwrap_or(0) as u64;
     let mut rep = Report::new();
+    if j.get("kind").and_then(|k| k.as_str()) == Some("tape") {
+        let tape = crate::util::unhex(j.get("tape").and_then(|t| t.as_str()).unwrap_or(""));
+        let r = crate::guided_case(&prop, &tape);
+        for (v, _) in r.violations.values() {
+            println!("replay: VIOLATION property={} sig={} :: {}", prop, v.sig, v.detail);
+        }
+        if r.violations.is_empty() {
+            println!("replay: property {} held on this case", prop);
+        }
+        return if r.violations.is_empty() { 0 } else { 1 };
+    }
     match prop.as_str() {
         "C01" => c01::replay(&ctx, j, &mut rep),
         "C02" => {
